@@ -1,5 +1,5 @@
 """Reusable rule templates (DESIGN.md §5)."""
-from facts import field_reads, norm, short
+from facts import field_reads, norm, short, subnodes
 
 POS_TYPES = ("nitrogql_ast::base::Pos", "nitrogql_ast::base::Keyword")
 
@@ -283,3 +283,100 @@ def iterator_reuse(P, R, rule, fns):
                            "%s consumes the iterator `%s` with %s in sequence: each consumer only sees the elements the previous one "
                            "left, so the result depends on element order" % (f.path, name, cons), loc=f.loc())
     return n
+
+
+# --------------------------------------------------------------------------------------------- stateful guards
+import re as _re
+_STATE_TY = _re.compile(r"RefCell<|(?<![A-Za-z])Cell<|Mutex<|RwLock<|Atomic[A-Z]|OnceCell<|OnceLock<|RefMut<|&mut ")
+_ITER_TY = _re.compile(r"::iter::|IntoIter|Iter<|Chars<|Peekable<|Pairs<")
+
+
+def stateful_guards(fn):
+    """guards (if conditions, let-else initialisers, match scrutinees outside loop desugaring) that read interior-mutable or
+    `&mut`-borrowed state: [(node index of the guarded construct, guard expr, state type, [guarded blocks])]"""
+    out = []
+    for i, (x, _) in enumerate(fn.nodes()):
+        k = x.get("k")
+        if k == "If":
+            g, blocks = x["cond"], [x.get("then"), x.get("else")]
+        elif k == "Let" and "els" in x:
+            g, blocks = x.get("init"), [x["els"]]
+        elif k == "Match" and not x.get("x"):
+            g, blocks = x["scrut"], [a["body"] for a in x["arms"]]
+        else:
+            continue
+        if g is None:
+            continue
+        for y in subnodes(g):
+            t = str(y.get("t", ""))
+            if _STATE_TY.search(t) and not _ITER_TY.search(t):
+                out.append((i, g, t, [b for b in blocks if b is not None]))
+                break
+    return out
+
+
+def memo_key_gaps(fn, guard, pv):
+    """for a stateful guard of the form `state.insert(key)` / `state.contains(key)` / `state.get(key)`: the parameters of `fn`
+    (other than the state holder and `&mut` sinks) that the key expression does not derive from"""
+    key_params, holder = set(), set()
+    for y in subnodes(guard):
+        if y.get("k") == "MethodCall" and y.get("method") in ("insert", "contains", "contains_key", "get", "replace", "entry", "remove"):
+            for a in y["args"]:
+                key_params |= {p[1] for p in pv.atoms(a) if p[0] == "param"}
+            holder |= {p[1] for p in pv.atoms(y["recv"]) if p[0] == "param"}
+    req = []
+    for p in fn.params:
+        if str(p.get("t", "")).startswith("&mut "):
+            continue
+        for b in subnodes(p):
+            if b.get("k") == "Binding" and pv.params.get(b["local"]) not in holder:
+                req.append(pv.params.get(b["local"]))
+    return sorted(set(req) - key_params), sorted(key_params), sorted(holder)
+
+
+def constant_params(P, entry_fn, scope_fns):
+    """{fn path: {param index}} of parameters that, at every call site inside `scope_fns`, receive the caller's own constant
+    parameter unchanged, or (in the entry) a local bound outside any loop / an entry parameter: values fixed for the whole run
+    of the entry function."""
+    from facts import call_name
+    idx = {f.path: f for f in scope_fns}
+    const = {f.path: set(range(len(f.params))) for f in scope_fns}
+    const[entry_fn.path] = set(range(len(entry_fn.params)))
+    sites = []
+    for f in scope_fns:
+        plocal = {}
+        for i, p in enumerate(f.params):
+            if p.get("k") == "Binding":
+                plocal[p["local"]] = i
+        for j, (x, _) in enumerate(f.nodes()):
+            if x.get("k") == "Call" and call_name(x) in idx and call_name(x) != entry_fn.path:
+                in_loop = any(c[0] in ("loop", "closure") for c in enclosing_contexts(f, j))
+                sites.append((f, plocal, x, in_loop))
+    loop_locals = {}
+    for f in scope_fns:
+        ll = set()
+        for j, (x, _) in enumerate(f.nodes()):
+            if x.get("k") == "Binding" and any(c[0] in ("loop", "closure", "arm") for c in enclosing_contexts(f, j)):
+                ll.add(x["local"])
+        loop_locals[f.path] = ll
+    changed = True
+    while changed:
+        changed = False
+        for f, plocal, x, in_loop in sites:
+            callee = call_name(x)
+            for ai, a in enumerate(x["args"]):
+                if ai not in const[callee]:
+                    continue
+                e = a
+                while e.get("k") in ("AddrOf", "Unary", "DropTemps", "Cast"):
+                    e = e["e"]
+                ok = False
+                if e.get("k") == "Path" and "local" in e:
+                    if e["local"] in plocal:
+                        ok = plocal[e["local"]] in const[f.path]
+                    elif f.path == entry_fn.path:
+                        ok = e["local"] not in loop_locals[f.path]
+                if not ok:
+                    const[callee].discard(ai)
+                    changed = True
+    return const
